@@ -34,7 +34,7 @@ GKINDS = ["int", "str", "float", "bool", "date", "datetime", "lstr", "ustr", "ob
 HELPERS = [("all", {}), ("any", {}), ("count", {}), ("count", {"drop_na": True}), ("count_unique", {}), ("count_unique", {"drop_na": True}),
            ("first", {}), ("first", {"drop_na": True}), ("last", {}), ("last", {"drop_na": True}), ("nth", {"index": 1}), ("nth", {"index": -2}),
            ("min", {}), ("max", {}), ("min", {"drop_na": False}), ("mode", {}), ("mean", {}), ("mean", {"drop_na": False}),
-           ("median", {}), ("median", {"drop_na": False}), ("quantile", {"q": 0.25}), ("quantile", {"q": 0.5, "drop_na": False}), ("std", {}), ("std", {"ddof": 1}), ("var", {}), ("var", {"ddof": 1}), ("sum", {}), ("sum", {"drop_na": False})]
+           ("median", {}), ("median", {"drop_na": False}), ("quantile", {"q": 0.25}), ("quantile", {"q": 0.5, "drop_na": False}), ("std", {}), ("std", {"ddof": 1}), ("var", {}), ("var", {"ddof": 1}), ("std", {"ddof": 2}), ("var", {"ddof": 3}), ("sum", {}), ("sum", {"drop_na": False})]
 
 def generate(rng, tier):
     tags = set()
@@ -151,6 +151,23 @@ def execute(case):
                 # the shorthand helper runs first, before any lambda has looked at the group-wise subsets
                 summaries = dict(y=summaries.pop("y"), **summaries)
                 res.cls("aggregate:helper-first")
+            elif nrow % 3 == 0 and not (ed and nrow):
+                # a summary FUNCTION that scribbles on the group-wise subset it was handed: the subsets belong to the functions (whether
+                # another function sees the scribble is not specified), but a shorthand helper later in the same call reads the frame's data
+                def scribble(d):
+                    a_ = np.asarray(d.x)
+                    if len(a_):
+                        a_[:] = a_[0]
+                    return len(a_)
+                out_s = df.group_by(*by).aggregate(scr=scribble, y=short)
+                ref_s = gen.build_frame(spec).group_by(*by).aggregate(y=f("x", *args, **kws) if name != "count" else f("x", **kws))
+                ys, yr = canon.col_cells(dict.__getitem__(out_s, "y")), canon.col_cells(dict.__getitem__(ref_s, "y"))
+                if not canon.cells_eq(ys, yr, widen=True, tol=(1e-9, 1e-9)):
+                    res.violate(f"aggregate:helper-sees-what-a-function-did-to-its-subset:{name}", f"{name}{kw} after a function that overwrote its own group subset: {canon.short(ys, 300)} expected {canon.short(yr, 300)}; {ctx}")
+                if canon.frame_cells(df) != pre:
+                    res.violate("aggregate:mutated-input", f"a function overwriting its group subset changed the receiver; {ctx}")
+                res.cls("aggregate:impure-function-first")
+                res.count("impure-function-checked")
             out = df.group_by(*by).aggregate(**summaries)
             oc = canon.frame_cells(out)
             if list(oc) == by + list(summaries):
